@@ -232,6 +232,33 @@ def upper_bound(I, a):
     return None
 
 
+def distribute(v, depth=0):
+    """[(condition, value)] with every case split inside the value -- at the top, or inside constructor fields
+    (`Ok(Ca(match n { None => Unconstrained, Some(n) => Constrained(n) }))`) -- pulled out to the top."""
+    import formula as F
+    from interp import core, PhiV, StructV, flatten_phi
+    v0 = core(v)
+    if isinstance(v0, PhiV):
+        out = []
+        for c, x in flatten_phi(v0):
+            for c2, y in distribute(x, depth + 1):
+                cc = F.And(c, c2)
+                if cc is not False:
+                    out.append((cc, y))
+        return out
+    if isinstance(v0, StructV) and depth < 5 and v0.fields:
+        combos = [(True, {})]
+        for k, f in v0.fields.items():
+            alts = distribute(f, depth + 1)
+            combos = [(F.And(c, c2), dict(d, **{k: y})) for c, d in combos for c2, y in alts]
+            if len(combos) > 64:
+                return [(True, v)]
+        if len(combos) == 1 and combos[0][0] is True:
+            return [(True, v)]
+        return [(c, StructV(v0.adt, v0.variant, d, node=getattr(v0, "node", None))) for c, d in combos if c is not False]
+    return [(True, v)]
+
+
 def decision_table(I, out, fn, classify, names):
     """Evaluate fn's result for every assignment of the named boolean conditions.
     classify(atom) -> (name, polarity) | None.  Returns ({assignment-tuple: outcome}, error)."""
@@ -242,12 +269,9 @@ def decision_table(I, out, fn, classify, names):
     v0 = core(out["value"])
     alts = []
     fails = [(c, v) for c, v, n, f in I.fails if f == fn or f in I.inlined]
-    for c, x in flatten_phi(v0):
+    for c, x in distribute(v0):
         x0 = core(x)
-        if isinstance(x0, StructV) and x0.variant == "Ok" and isinstance(core(x0.fields.get("0")), PhiV):
-            for c2, y in flatten_phi(x0.fields["0"]):
-                alts.append((F.And(c, c2), StructV(x0.adt, "Ok", {"0": y})))
-        elif isinstance(x0, StructV) and x0.variant == "Err":
+        if isinstance(x0, StructV) and x0.variant == "Err":
             fails.append((c, x0))      # an error returned as a value is an error all the same
         else:
             alts.append((c, x))
